@@ -854,3 +854,71 @@ func Verif_C03_many_objects() {
 	}
 	verifrt.Assert(all, "every object reads back")
 }
+
+// Verif_C03_xref_stream_fields: the cross-reference stream written for
+// arbitrary entries.  Three entries of the Writer's table are replaced before
+// Close by an in-use entry with a symbolic offset (< 2^40) and generation, an
+// object-stream member with a symbolic container number and index, and a free
+// entry with a symbolic generation; the strict reader must decode exactly
+// these values from the file (field widths /W chosen by the writer must hold
+// every value, including the position of the cross-reference stream itself).
+func Verif_C03_xref_stream_fields() {
+	defer verifFixRand()()
+	sb := &verifSeekBuf{}
+	w, err := NewWriter(sb, V1_7, &WriterOptions{ID: [][]byte{[]byte("0123456789abcdef"), []byte("0123456789abcdef")}})
+	verifrt.Assert(err == nil, "NewWriter succeeds")
+	if err != nil {
+		return
+	}
+	// optional filler so that the cross-reference stream lies beyond 256
+	// bytes (thorough: beyond 65536)
+	fill := []int{0, 200, 66000}[verifrt.Choice("fill", 2+verifrt.Tier())]
+	if fill > 0 {
+		verifrt.Unwind(200000)
+		verifrt.Assert(w.Put(w.Alloc(), String(make([]byte, fill))) == nil, "Put succeeds")
+	}
+	r1, r2, r3 := w.Alloc(), w.Alloc(), w.Alloc()
+	// one of the three entries is symbolic per run
+	which := verifrt.Choice("entry", 3)
+	pos, gen := int64(17), uint16(0)
+	container, idx := uint32(5), int64(1)
+	freeGen := uint16(1)
+	switch which {
+	case 0:
+		pos = verifrt.Int64("pos")
+		verifrt.Assume(pos >= 0 && pos < 1<<40)
+		gen = verifrt.Uint16("gen")
+	case 1:
+		container = verifrt.Uint32("container")
+		verifrt.Assume(container > 0 && container < 1<<23)
+		idx = verifrt.Int64("index")
+		verifrt.Assume(idx >= 0 && idx < 1<<31)
+	default:
+		freeGen = verifrt.Uint16("freegen")
+		verifrt.Assume(freeGen != 65535)
+	}
+	w.xref[r1.Number()] = &xRefEntry{Pos: pos, Generation: gen}
+	w.xref[r2.Number()] = &xRefEntry{InStream: NewReference(container, 0), Pos: idx}
+	w.xref[r3.Number()] = &xRefEntry{Pos: -1, Generation: freeGen}
+	w.GetMeta().Catalog.Pages = w.Alloc()
+	verifrt.Assert(w.Close() == nil, "Close succeeds")
+	f := sReadXRef(sb.b)
+	verifrt.Assert(f.ok, "cross-reference stream is well formed")
+	if !f.ok {
+		return
+	}
+	verifrt.Cover("decoded")
+	e1, e2, e3 := f.entries[int64(r1.Number())], f.entries[int64(r2.Number())], f.entries[int64(r3.Number())]
+	verifrt.Assert(e1.kind == 1 && e1.f2 == pos && e1.f3 == int64(gen), "in-use entry holds the offset and generation")
+	verifrt.Assert(e2.kind == 2 && e2.f2 == int64(container) && e2.f3 == idx, "compressed entry holds the container number and index")
+	verifrt.Assert(e3.kind == 0 && e3.f3 == int64(freeGen), "free entry holds the generation")
+	// every in-use entry written by the library itself (catalog, info, the
+	// cross-reference stream if listed) points at its object header
+	for n, e := range f.entries {
+		if e.kind != 1 || n == int64(r1.Number()) {
+			continue
+		}
+		_, _, ok := f.get(sb.b, n)
+		verifrt.Assert(ok, "every in-use entry written by the library resolves")
+	}
+}
